@@ -162,6 +162,9 @@ pub fn similar_args() -> Vec<Value> {
         Value::Int(1), s("1"), s("i1"), Value::Vec(vec![Value::Int(1)]), Value::Float(1.0), d(1, 0), d(10, 1), d(100, 2),
         Value::Float(0.0), Value::Float(-0.0), Value::None, map(&[("a", Value::Int(1))]), Value::Float(f64::NAN),
         Value::Bool(true), s("Int(1)"), Value::Vec(vec![]), d(0, 0), d(0, 1),
+        // arguments that differ structurally but coincide under looser renderings (unquoted map keys, joined items)
+        map(&[("a", Value::Int(1)), ("b", Value::Int(2))]), map(&[("a: i1, b", Value::Int(2))]), map(&[("a\": Int(1), \"b", Value::Int(2))]),
+        Value::Vec(vec![s("a"), s("b")]), Value::Vec(vec![s("a\", \"b")]), Value::Vec(vec![s("a, b")]), s("a\"b"), s("a\\\"b"),
     ]
 }
 
